@@ -237,6 +237,9 @@ class Sim:
         self.graph_violations = []
         self.graph_probes = {}
         self.serial_at_epoch = 0
+        self.nodes_created = 0
+        self.nodes_at_epoch = 0
+        self.node_budget = scenario.get("node_budget", 4000)
 
     # -- logging -------------------------------------------------------------------------
     def now(self):
@@ -613,6 +616,19 @@ def install(suite_path=None, home=None):
 
     graph_mod.TestGraph.traverse_object_trees = named_traverse
 
+    # watchdog against parsing that never ends (it awaits nothing and executes nothing): count constructed test nodes
+    real_node_init = node_mod.TestNode.__init__
+
+    def counting_init(self, *a, **kw):
+        sim = CURRENT["sim"]
+        if sim is not None:
+            sim.nodes_created += 1
+            if sim.nodes_created - sim.nodes_at_epoch > sim.node_budget:
+                raise ExecBudgetExceeded(f"more than {sim.node_budget} test nodes constructed in one job")
+        return real_node_init(self, *a, **kw)
+
+    node_mod.TestNode.__init__ = counting_init
+
     # watchdog against livelocks that never await: count traversal steps per loop iteration
     for cls_, names in ((node_mod.TestNode, ("pick_parent", "pick_child")),):
         for fname in names:
@@ -773,6 +789,7 @@ def run_epoch(sim, epoch_cfg, logs_dir):
     TestWorker._session_cache = {}
     sim.running = {}
     sim.serial_at_epoch = sim.serial
+    sim.nodes_at_epoch = sim.nodes_created
 
     param_dict = dict(scenario.get("params", {}))
     param_dict["nets"] = scenario["nets"]
@@ -875,6 +892,7 @@ def run_epoch(sim, epoch_cfg, logs_dir):
         ending["error_type"] = type(error).__name__
         ending["traceback"] = traceback.format_exc()[-3000:]
     ending["steps"] = loop.steps
+    ending["nodes_constructed"] = sim.nodes_created - sim.nodes_at_epoch
     ending["vtime"] = round(loop.time(), 4)
     ending["pending_tasks"] = 0
     try:
@@ -940,6 +958,7 @@ def run_tool(sim, call, logs_dir):
     TestWorker._session_cache = {}
     sim.running = {}
     sim.serial_at_epoch = sim.serial
+    sim.nodes_at_epoch = sim.nodes_created
     scenario = sim.scenario
     loop = make_loop(sim, scenario.get("step_budget", 150_000))
     jobs = []
